@@ -37,6 +37,9 @@ def gen_cases(tier, seed):
                                   seed=int(rng.integers(1 << 30)), cost=4))
     for i in range(6 * k):
         cases.append(dict(kind="train", seed=int(rng.integers(1 << 30)), cost=5))
+        if i % 3 == 0:
+            cases.append(dict(kind="train", large=1 + (i // 3) % 2,
+                              seed=int(rng.integers(1 << 30)), cost=8))
         cases.append(dict(kind="nll", seed=int(rng.integers(1 << 30)), cost=0.5))
         cases.append(dict(kind="plans", seed=int(rng.integers(1 << 30)), cost=1))
     for i in range(3 * k):
@@ -218,6 +221,13 @@ def run_train(case):
     n = int(rng.integers(5, 61))
     bs = int(rng.choice([1, 2, 4, 7, 16]))
     train_size = float(rng.choice([0.5, 0.7, 1.0]))
+    if case.get("large"):
+        # data sets beyond the 8 / 16-bit index ranges (round 9: a narrowed
+        # index dtype inside train_epoch wraps only there)
+        n = int(rng.choice([66000, 70000, 140000] if case["large"] == 1
+                           else [300, 40000]))
+        bs = int(rng.choice([64, 1000, 5000]))
+        train_size = float(rng.choice([0.3, 0.5]))
     if int(train_size * n) < bs:
         bs = max(1, int(train_size * n))
     X = jnp.asarray(rng.normal(size=(n, 3)), jnp.float32)
@@ -231,8 +241,17 @@ def run_train(case):
         return o
 
     def train_epoch(model_, opt_, X_, Y_, indices):
-        seen["epochs"].append(np.asarray(indices))
-        return orig_t(model_, opt_, X_, Y_, indices)
+        idx_ = np.asarray(indices)
+        seen["epochs"].append(idx_)
+        # rows that no member's batch of this epoch names are replaced by NaN:
+        # the gather inside train_epoch is then observable through the loss
+        # and the parameters (the index argument alone does not show it)
+        unused = np.ones(X_.shape[0], bool)
+        unused[idx_.ravel()[(idx_.ravel() >= 0) & (idx_.ravel() < X_.shape[0])]] = False
+        seen["poisoned"] = seen.get("poisoned", 0) + int(unused.sum())
+        Xp = jnp.where(jnp.asarray(unused)[:, None], jnp.nan, X_)
+        Yp = jnp.where(jnp.asarray(unused)[:, None], jnp.nan, Y_)
+        return orig_t(model_, opt_, Xp, Yp, indices)
 
     n_epochs = int(rng.integers(1, 4))
     with rebound([(pe, "bootstrap", bootstrap), (pe, "train_epoch", train_epoch)]):
@@ -275,7 +294,18 @@ def run_train(case):
                 return res
         res.see("epochs_observed")
     if not np.isfinite(float(loss)):
-        res.violation("C17/train/loss_non_finite", f"loss {loss}")
+        res.violation("C17/train/loss_non_finite", f"loss {loss} (rows outside "
+                      f"the epoch's index tensor were NaN: {seen.get('poisoned', 0)})")
+    else:
+        leaves = jax.tree_util.tree_leaves(nnx.state(model, nnx.Param))
+        if not all(bool(np.all(np.isfinite(np.asarray(l)))) for l in leaves):
+            res.violation("C17/train/params_non_finite", "parameters not finite "
+                          "after training on finite rows (rows outside the "
+                          "epoch's index tensor were NaN)")
+    if seen.get("poisoned", 0):
+        res.see("epochs_with_poisoned_unused_rows")
+    if n > 65536:
+        res.see("train_sets_beyond_16_bit_indices")
     res.nontrivial = dup
     res.state(("train", E, bs, nb))
     return res
